@@ -31,6 +31,7 @@ func init() {
 			{Name: "togo-drops-assign", File: tg, Old: "\t\tAssign:     spec.Assign,\n", New: "", Expect: "conv-field/togo.goTypeSpec:TypeSpec.Assign"},
 			{Name: "fromgo-drops-recv", File: fg, Old: "\t\tRecv: gopFieldList(v.Recv),\n", New: "", Expect: "conv-field/fromgo.gopFuncDecl:FuncDecl.Recv"},
 			{Name: "fromgo-unwraps-parens", File: fg, Old: "func gopType(v ast.Expr) gopast.Expr {\n", New: "func gopType(v ast.Expr) gopast.Expr {\n\tif p, ok := v.(*ast.ParenExpr); ok {\n\t\tv = p.X\n\t}\n", Expect: "conv-identity/fromgo.gopType"},
+			{Name: "fromgo-returns-child-of-paren", File: fg, Old: "func gopType(v ast.Expr) gopast.Expr {\n", New: "func gopType(v ast.Expr) gopast.Expr {\n\tif p, ok := v.(*ast.ParenExpr); ok {\n\t\treturn gopExpr(p.X)\n\t}\n", Expect: "conv-identity/fromgo.gopType"},
 			{Name: "togo-values-from-names", File: tg, Old: "\t\tValues: goExprs(spec.Values),", New: "\t\tValues: nil,", Expect: "conv-field/togo.goValueSpec:ValueSpec.Values"},
 		},
 	})
@@ -150,6 +151,50 @@ func convCoverage(c *core.Check, pk *packages.Package, label string) {
 								if identObj(info, l) == src && x.Tok == token.ASSIGN {
 									bad = x.Pos()
 								}
+							}
+						}
+						return true
+					})
+					// … nor returns the conversion of one of its children in its place (`return gopType(p.X)` for a ParenExpr)
+					derived := map[types.Object]bool{src: true}
+					ast.Inspect(fd.Body, func(n ast.Node) bool {
+						switch x := n.(type) {
+						case *ast.AssignStmt:
+							if len(x.Rhs) == 1 {
+								if ta, ok := ast.Unparen(x.Rhs[0]).(*ast.TypeAssertExpr); ok && derived[identObj(info, ta.X)] {
+									if o := identObj(info, x.Lhs[0]); o != nil {
+										derived[o] = true
+									}
+								}
+							}
+						case *ast.TypeSwitchStmt:
+							if as, ok := x.Assign.(*ast.AssignStmt); ok && len(as.Rhs) == 1 {
+								if ta, ok := ast.Unparen(as.Rhs[0]).(*ast.TypeAssertExpr); ok && derived[identObj(info, ta.X)] {
+									for _, cc := range x.Body.List {
+										if o := info.Implicits[cc]; o != nil {
+											derived[o] = true
+										}
+									}
+								}
+							}
+						}
+						return true
+					})
+					ast.Inspect(fd.Body, func(n ast.Node) bool {
+						ret, ok := n.(*ast.ReturnStmt)
+						if !ok || len(ret.Results) != 1 {
+							return true
+						}
+						call, ok := ast.Unparen(ret.Results[0]).(*ast.CallExpr)
+						if !ok || len(call.Args) < 1 {
+							return true
+						}
+						if fn, ok := calleeObj(info, call).(*types.Func); !ok || fn.Pkg() != pk.Types {
+							return true
+						}
+						if sel, ok := ast.Unparen(call.Args[0]).(*ast.SelectorExpr); ok && derived[identObj(info, sel.X)] {
+							if s := info.Selections[sel]; s != nil && s.Kind() == types.FieldVal && isASTNodeType(s.Obj().Type()) {
+								bad = ret.Pos()
 							}
 						}
 						return true
